@@ -108,8 +108,18 @@ def job_core(payload):
         n = rng.randint(1, 4)
         stacks, ts = c01.tagged_inputs(rng, n, rng.randint(0, 4), g)
         ptxt = zast.text(c01.producer(rng, stacks))
-        e = g.anyprog(ts, {}, rng.randint(0, 3))
-        e2 = g.push(ts, {}, 1)[0]
+        bound = rng.random() < 0.3
+        if bound:
+            # names bound to a sequence and a string; reads of them lie on every stack, and the sub-expression may read the same
+            # names again and work on what it reads (append, concatenate): the copies on the surrounding stack must stay as they were
+            ts = ts + ["q", "s"]
+            e = g.anyprog(ts, {"Sq04": "q", "St04": "s"}, rng.randint(1, 3))
+            if rng.random() < 0.6:
+                e = ("cat", [("read", "Sq04"), rng.choice([("cap", (), ("int", 2, "dec")), ("read", "Sq04"), ("elist",)]), ("word", "add"), e])
+            e2 = g.push(ts, {"Sq04": "q", "St04": "s"}, 1)[0]
+        else:
+            e = g.anyprog(ts, {}, rng.randint(0, 3))
+            e2 = g.push(ts, {}, 1)[0]
         etxt, e2txt = zast.text(("paren", (), e)) if e[0] in ("alt", "or") else zast.text(e), zast.text(("paren", (), e2))
         if rng.random() < 0.4:
             # values with non-zero positions, of several types, at the bottom of every stack (they are part of "the surrounding stack")
@@ -122,7 +132,11 @@ def job_core(payload):
             out["samples"].append("%s ?( %s )" % (ptxt, etxt))
         bad = []
         try:
-            relations(d, "( %s )" % ptxt, etxt, e2txt, "", bad, out, "core")
+            if bound:
+                out["bound_reads"] = out.get("bound_reads", 0) + 1
+                relations(d, 'let Sq04 := [ 1 , [ 2 ] ] ; let St04 := "ab" ; ( %s ) Sq04 St04' % ptxt, etxt, e2txt, "", bad, out, "core")
+            else:
+                relations(d, "( %s )" % ptxt, etxt, e2txt, "", bad, out, "core")
         except common.DriverCrash as ex:
             bad.append(("crash:" + getattr(ex, "key", ex.kind), dict(text=ptxt + " // " + etxt, report=ex.report[-3000:])))
         except common.DriverTimeout as ex:
@@ -245,6 +259,8 @@ def operand_pool_fixed(t):
         (q(fl, "entry @AT_location"), "loclist_elem"), (q(fl, "entry @AT_location elem"), "loclist_op"),
         (q("", "1 10 aset"), "aset"), (q(fa, "symbol"), "elfsym"), (q(f, "entry abbrev"), "abbrev"),
         (q(f, "entry abbrev attribute"), "abbrev_attr"), (q(f, "abbrev"), "abbrev_unit"),
+        (q("", "0 0x10 aset 2 3 aset"), "aset,aset-inside"), (q("", "0 0x10 aset 8 0x20 aset"), "aset,aset-overlapping"), (q("", "0 0x10 aset 0x20 0x30 aset"), "aset,aset-disjoint"),
+        (q("", "0 0x10 aset 5"), "aset,const"), (q("", "[1, 2, 3] [2]"), "seq,seq-infix"), (q("", "\"abc\" \"c\""), "str,str-suffix"), (q("", "[1, 2] 1"), "seq,const"),
         (q("", "1 \"a\""), "const,str"), (q("", "\"abc\" \"b\""), "str,str"), (q("", "[1] [1]"), "seq,seq"), (q("", "3 4"), "const,const"),
         (q(f, "entry ?TAG_subprogram dup"), "die,die"), ("", "empty stack"),
     ]
@@ -303,7 +319,7 @@ def run(chk):
                 "non-trivial = partition in which both ?(E) and !(E) yielded something, or a word pair whose positive flavour held",
         "partitions_compared": tot.get("partition", 0), "infix_checked": tot.get("infix", 0),
         "captures_checked": tot.get("capture", 0), "lets_checked": tot.get("let", 0),
-        "producers_with_positioned_values_below": tot.get("positioned", 0),
+        "producers_with_positioned_values_below": tot.get("positioned", 0), "producers_with_reads_of_bound_names_on_the_stack": tot.get("bound_reads", 0),
         "dwarf_files": [os.path.basename(f) for f in files],
         "assertion_word_pairs_in_vocabulary": len(aw), "operand_kinds": [t for _, t in ops],
         "word_pair_cells": wt.get("pairs", 0), "cells_positive_held": wt.get("held", 0), "cells_negative_held": wt.get("nothold", 0),
